@@ -35,7 +35,10 @@ class Prop:
             "Tree.copy, Node.copy x add_self; (b2) the same whole-branch copies on sources REACHED THROUGH A HISTORY (front inserts at the top level "
             "and below, sort(reverse, deep), same-parent and cross-parent moves incl. below a later-created parent: creation order != current "
             "order) and on sources with a clone nested inside its own clone's branch followed by later children (depth 2-4); typed targets have "
-            "siblings of mixed kinds; the four shortcuts append_child/prepend_child/prepend_sibling/append_sibling with a NODE or a TREE "
+            "siblings of mixed kinds; every copy API with its arguments OMITTED (defaults of deep/add_self/before) into the other tree and to "
+            "every place of the source tree itself (a legal copy that is refused is a failure: the oracle derives the documented refusal reasons "
+            "by pointers); targets = a Tree.copy() of the source whose nodes got new data objects under their old data_ids (set_data(new, "
+            "data_id=same, with_clones=True)), copied into from the source; every history ends with the copy operation repeated; the four shortcuts append_child/prepend_child/prepend_sibling/append_sibling with a NODE or a TREE "
             "argument on every target node and inside the source tree (rendered for the model as the add_child call they stand for); (c) histories: source (exhaustive small, random 4-12 nodes with calc_data_id callbacks) + one "
             "copy operation + a metadata edit on a copied node and on a source node + a random mutation history of 4-25 operations on the "
             "source or on the copy (set_meta/clear_meta/update_meta, set_data, rename, sort, remove x keep_children x with_clones, "
@@ -83,13 +86,15 @@ class Prop:
         if not quick:
             groups += list(M.gen_groups(4, nmin=4, labelings=("mixed",)))
         # deeper shapes (depth 3, two grandchildren; a chain of 4): thorough = all five x everything,
-        # quick = three of them (two grandchildren, a chain of 4, three grandchildren), 'mixed' labeling, every 6th alternative
+        # quick = three of them (two grandchildren, a chain of 4, three grandchildren), 'mixed' labeling, every 8th alternative
         groups += list(M.gen_groups(0, shapes=[M.EXTRA_SHAPES[i] for i in (0, 1, 3)] if quick else M.EXTRA_SHAPES,
                                     labelings=("mixed",), full=not quick))
         for gi, g in enumerate(groups):
             alts = g["alts"]
             if quick and g["n"] > 3:
-                alts = [a for i, a in enumerate(alts) if i % 6 == gi % 6]
+                alts = [a for i, a in enumerate(alts) if i % 8 == gi % 8]
+            elif quick and g["n"] == 2:
+                alts = [a for i, a in enumerate(alts) if i % 2 == gi % 2]
             elif quick and g["n"] == 3:
                 # quick tier: every 9th alternative per group, the offset moves with the group (the union over the
                 # 20 groups of 3-node sources still covers every alternative; the thorough tier runs all of them)
@@ -103,12 +108,17 @@ class Prop:
         hist_groups += list(M.gen_nested_groups(reorders=(None, "B") if quick else (None, "A", "B", "C")))
         if not quick:
             hist_groups += list(M.gen_groups(0, shapes=M.EXTRA_SHAPES, labelings=("mixed",), reorders=("A", "B", "C")))
+        # every copy API called with its arguments OMITTED (deep / add_self / before defaults), also to every place inside the
+        # source's own branch (legal for shallow copies); and targets that hold ANOTHER object under the source's data_ids
+        # (the target is a Tree.copy() of the source whose nodes got new data objects under their old data_ids)
+        hist_groups += list(M.gen_default_groups(3))
+        hist_groups += list(M.gen_versioned_groups(3))
         for g in hist_groups:
             for i in range(0, len(g["alts"]), 64):
                 yield dict(kind="alts", univ=g["univ"], setup=g["setup"], alts=g["alts"][i:i + 64], label=g["label"])
         groups = groups + hist_groups
         # histories on small sources: every k-th copy alternative followed by a mutation tail
-        stride = 61 if quick else 22
+        stride = 71 if quick else 26
         j = 0
         for g in groups:
             if g["n"] < 2:
@@ -120,7 +130,7 @@ class Prop:
                 h, _ = M.gen_history(rng, g["setup"], a, rng.randint(4, 10), univ=g["univ"])
                 yield dict(kind="hist", univ=h["univ"], ops=h["ops"], check_from=len(g["setup"]))
         # larger random sources
-        for i in range(25 if quick else 300):
+        for i in range(22 if quick else 300):
             setup, n, typed = M.random_source(rng, 4, 8 if quick else 12)
             h, _ = M.gen_history(rng, setup, M.random_copy_op(rng, n, typed), rng.randint(6, 14 if quick else 25),
                                  reorder=rng.randint(0, 4))
